@@ -78,7 +78,7 @@ def shard(i: int, n: int, tier: str, seed: int) -> Result:
     rng = random.Random(seed * 811 + i)
     total = 640 if tier == "quick" else 12000
     prof = prog.profile(w_for=7, w_while=2.5, w_if=2, w_if1=2, w_early_return=2, w_index_assign=3, w_aug=3, w_with=2.5, w_freevar=0.7,
-                        w_copy=0.5, w_const=0.5, hostile_names=HOSTILE, hostile_prob=0.45, shadow_target_prob=0.2, helpers=1, loop_rebinds_iterable_prob=0.3, reduce_prob=0.25, comp_target_shadows_prob=0.4, guarded_reduce_prob=0.3, while_extra_cond_prob=0.6, loop_writes_int_arg_prob=0.5,
+                        w_copy=0.5, w_const=0.5, hostile_names=HOSTILE, hostile_prob=0.45, shadow_target_prob=0.2, helpers=1, loop_rebinds_iterable_prob=0.3, reduce_prob=0.25, comp_target_shadows_prob=0.4, guarded_reduce_prob=0.3, while_extra_cond_prob=0.6, while_reduce_cond_prob=0.35, loop_writes_int_arg_prob=0.5,
                         args=lambda r: r.choice([('R', 'L'), ('R', 'L', 'L'), ('L',), ('R', 'R', 'L'), ('R', 'L', 'LL'), ('I', 'L'), ('I', 'R', 'L')]))
     lengths = list(range(0, 10)) + [10, 12, 13, 17]
 
